@@ -83,16 +83,31 @@ def write_prog(files: Dict[str, Dict[str, Any]], root: str) -> None:
 
 
 class Silence:
+    """silence Python-level and fd-level output (the python back end runs `black` as a subprocess)"""
+
     def __enter__(self):
+        import logging
         self.so, self.se = sys.stdout, sys.stderr
         sys.stdout, sys.stderr = io.StringIO(), io.StringIO()
-        import logging
         self.lvl = logging.root.manager.disable
         logging.disable(logging.CRITICAL)
+        try:
+            self.fds = (os.dup(1), os.dup(2))
+            self.null = os.open(os.devnull, os.O_WRONLY)
+            os.dup2(self.null, 1)
+            os.dup2(self.null, 2)
+        except OSError:
+            self.fds = None
         return self
 
     def __exit__(self, *a):
         import logging
+        if self.fds:
+            os.dup2(self.fds[0], 1)
+            os.dup2(self.fds[1], 2)
+            os.close(self.fds[0])
+            os.close(self.fds[1])
+            os.close(self.null)
         logging.disable(self.lvl)
         sys.stdout, sys.stderr = self.so, self.se
         return False
